@@ -344,6 +344,66 @@ def prov_annotate_lookup(repo, tier="quick"):
 # K2: RDKit index space vs node key space
 # ---------------------------------------------------------------------------
 
+def _inverse_of_atom_map(fl, call_t, graph):
+    """list(D) where D is the local node -> atom index map: created empty, filled only by `D[node] = mol.AddAtom(..)` once per
+    node in one unconditional loop over the nodes of `graph`: its keys are the nodes in the order of their atom indices."""
+    fi = fl.fi
+    site = call_t[1]
+    call = next((x for x in ast.walk(fi.node) if isinstance(x, ast.Call) and (x.lineno, x.col_offset) == tuple(site)), None)
+    if call is None or len(call.args) != 1 or not isinstance(call.args[0], ast.Name):
+        return False
+    name = call.args[0].id
+    for _ in range(4):
+        uses = [x for x in ast.walk(fi.node) if isinstance(x, ast.Name) and x.id == name]
+        stores = [x for x in uses if isinstance(x.ctx, ast.Store)]
+        if len(stores) != 1:
+            return False
+        # `name = other` or `.., name = .., other`: the same dict under another name
+        alias = None
+        for st in ast.walk(fi.node):
+            if isinstance(st, ast.Assign) and len(st.targets) == 1:
+                t, v = st.targets[0], st.value
+                if t is stores[0] and isinstance(v, ast.Name):
+                    alias = v.id
+                if isinstance(t, ast.Tuple) and isinstance(v, ast.Tuple) and len(t.elts) == len(v.elts):
+                    for a, b in zip(t.elts, v.elts):
+                        if a is stores[0] and isinstance(b, ast.Name):
+                            alias = b.id
+        if alias is None:
+            break
+        name = alias
+    init = None
+    fills = []
+    for n in fi.cfg.nodes:
+        if n.kind != "stmt":
+            continue
+        st = n.ast
+        if isinstance(st, ast.Assign) and len(st.targets) == 1 and st.targets[0] is stores[0]:
+            init = st.value
+        elif isinstance(st, ast.Assign) and len(st.targets) == 1 and isinstance(st.targets[0], ast.Subscript) and \
+                isinstance(st.targets[0].value, ast.Name) and st.targets[0].value.id == name:
+            fills.append(n)
+        elif isinstance(st, (ast.Delete, ast.AugAssign)) and any(isinstance(x, ast.Name) and x.id == name for x in ast.walk(st)):
+            return False
+        elif isinstance(st, ast.Expr) and isinstance(st.value, ast.Call) and isinstance(st.value.func, ast.Attribute) and \
+                isinstance(st.value.func.value, ast.Name) and st.value.func.value.id == name:
+            return False        # D.pop / D.update / D.clear ...
+    empty = isinstance(init, ast.Dict) and not init.keys or (isinstance(init, ast.Call) and isinstance(init.func, ast.Name) and init.func.id == "dict" and not init.args and not init.keywords)
+    if not empty or len(fills) != 1:
+        return False
+    n = fills[0]
+    v = method_call(fl.canon(n.ast.value, n.id), "AddAtom")
+    if not v or _classify_key(fl, fl.canon(n.ast.targets[0].slice, n.id), graph) != "node":
+        return False
+    lps = enclosing_loops(fi, n.id)
+    if len(lps) != 1 or lps[0].kind != "for" or [gd for gd in guards_of(fi, n.id) if gd[2] != lps[0].id]:
+        return False
+    if not fi.cfg.dominates(n.id, fi.cfg.owner.get(id(call), -1)) and not fi.cfg.dominates(lps[0].id, fi.cfg.owner.get(id(call), -1)):
+        return False
+    adds = [c2 for c2, _ in fl.calls() if isinstance(c2.func, ast.Attribute) and c2.func.attr == "AddAtom"]
+    return len(adds) == 1
+
+
 def _classify_key(fl, k, graph):
     """'node' (a key of `graph`), 'node-by-position' (list(graph.nodes)[rdkit index]),
     'rdkit' (an RDKit atom index / enumerate counter), 'other'."""
@@ -384,6 +444,8 @@ def _classify_key(fl, k, graph):
         if k[1][0] == "comp" and k[1][1] == "list" and len(k[1][4]) == 1 and not k[1][4][0][2] and k[1][3] == k[1][4][0][1]:
             e3 = elem_of(k[1][3])
             position_list = bool(e3 and e3[0] == "elem" and strip_wrappers(e3[1]) in (("attr", graph, "nodes"), graph))
+        if not position_list and c and len(c[0]) == 1 and not c[1]:
+            position_list = _inverse_of_atom_map(fl, k[1], graph)
         if position_list:
             inner = _classify_key(fl, k[2], graph)
             if inner == "rdkit":
